@@ -1050,4 +1050,81 @@ theorem rt_all (np : NumPy) (t : Ty) : RT1 np t :=
   Ty.rec (motive_1 := RT1 np) (motive_2 := RT2 np)
     (rt_bool np) (rt_int np) (rt_float np) (rt_arr np) (rt_comp np) (rt_nil np) (rt_cons np) t
 
+/-! ## aliases and module lookup -/
+
+theorem maxMinor_spec : ∀ (ms : List Nat) (k : Nat), maxMinor ms = some k → k ∈ ms ∧ ∀ m ∈ ms, m ≤ k := by
+  intro ms
+  induction ms with
+  | nil => intro k h; simp [maxMinor] at h
+  | cons m ms ih =>
+    intro k h
+    simp only [maxMinor] at h
+    cases hr : maxMinor ms with
+    | none =>
+      rw [hr] at h; simp at h; subst h
+      have hnil : ms = [] := by
+        cases ms with
+        | nil => rfl
+        | cons a as => simp only [maxMinor] at hr; split at hr <;> simp at hr
+      subst hnil; simp
+    | some j =>
+      rw [hr] at h; simp at h; subst h
+      obtain ⟨hj, hall⟩ := ih j hr
+      constructor
+      · by_cases hm : m ≤ j
+        · rw [Nat.max_eq_right hm]; exact List.mem_cons_of_mem _ hj
+        · rw [Nat.max_eq_left (by omega)]; exact List.mem_cons_self
+      · intro x hx
+        rcases List.mem_cons.1 hx with rfl | hx
+        · exact Nat.le_max_left _ _
+        · exact Nat.le_trans (hall x hx) (Nat.le_max_right _ _)
+
+theorem maxMinor_some_of_mem : ∀ (ms : List Nat) (m : Nat), m ∈ ms → ∃ k, maxMinor ms = some k := by
+  intro ms m hm
+  cases ms with
+  | nil => simp at hm
+  | cons a as =>
+    simp only [maxMinor]
+    cases maxMinor as with
+    | none => exact ⟨a, rfl⟩
+    | some j => exact ⟨max a j, rfl⟩
+
+theorem doImport_strop (reserved : String → Bool) (ex : List String → Bool) :
+    ∀ (comps pre : List String),
+      (∀ a b c, comps = a ++ c :: b → ex (pre ++ a.map (strop reserved) ++ [strop reserved c]) = true) →
+      (∀ a b c, comps = a ++ c :: b → reserved c = true → ex (pre ++ a.map (strop reserved) ++ [c]) = false) →
+      doImport ex pre comps = some (pre ++ comps.map (strop reserved)) := by
+  intro comps
+  induction comps with
+  | nil => intro pre _ _; simp [doImport]
+  | cons c cs ih =>
+    intro pre h1 h2
+    have hrec : ∀ pre', pre' = pre ++ [strop reserved c] →
+        doImport ex pre' cs = some (pre' ++ cs.map (strop reserved)) := by
+      intro pre' hp
+      apply ih pre'
+      · intro a b c' hc
+        have := h1 (c :: a) b c' (by rw [hc]; rfl)
+        simpa [hp, List.append_assoc] using this
+      · intro a b c' hc hr
+        have := h2 (c :: a) b c' (by rw [hc]; rfl) hr
+        simpa [hp, List.append_assoc] using this
+    have hex := h1 [] cs c rfl
+    simp only [List.map_nil, List.append_nil] at hex
+    cases hr : reserved c with
+    | false =>
+      have hs : strop reserved c = c := by simp [strop, hr]
+      rw [hs] at hex
+      simp only [doImport, hex, if_true]
+      rw [hrec (pre ++ [c]) (by rw [hs])]
+      simp [hs]
+    | true =>
+      have hs : strop reserved c = c ++ "_" := by simp [strop, hr]
+      rw [hs] at hex
+      have hno := h2 [] cs c rfl hr
+      simp only [List.map_nil, List.append_nil] at hno
+      simp only [doImport, hno, Bool.false_eq_true, if_false, hex, if_true]
+      rw [hrec (pre ++ [c ++ "_"]) (by rw [hs])]
+      simp [hs]
+
 end NunavutVerif.PyObj
